@@ -26,6 +26,7 @@ namespace {
   {
     z3::context ctx;
     std::unique_ptr<z3::solver> slv;
+    std::unique_ptr<z3::solver> aux;
     std::vector<z3::expr> terms; // id-1
     std::vector<z3::expr> bools; // id-1
     uint32_t epoch = 0;
@@ -719,6 +720,23 @@ namespace sx {
     Eng & e    = eng();
     z3::expr c = bterm(claim).simplify();
     if (c.is_true()) return PROVED;
+    // 1. validity independent of the path condition (cheap: no non-linear PC to re-establish)
+    {
+      if (!e.aux) {
+        e.aux.reset(new z3::solver(e.ctx));
+        z3::params p(e.ctx);
+        p.set("timeout", 1000u);
+        e.aux->set(p);
+      }
+      e.aux->reset();
+      e.aux->add(!c);
+      auto t0 = clk::now();
+      z3::check_result r0;
+      try { r0 = e.aux->check(); } catch (z3::exception &) { r0 = z3::unknown; }
+      e.st.solver_seconds += std::chrono::duration<double>(clk::now() - t0).count();
+      e.st.prove_queries++;
+      if (r0 == z3::unsat) return PROVED;
+    }
     e.st.prove_queries++;
     z3::check_result r = check_with(!c, timeout_ms ? timeout_ms : e.opt.prove_timeout_ms, true);
     e.model_valid      = false;
